@@ -12,10 +12,10 @@ def install_atoms():
     return
 
 
-def explore(ck, label="gp_reference"):
+def explore(ck, label="gp_reference", focus="all"):
     install_atoms()
-    r = run_tlc("MC_GpExact", cfg_text="INIT Init\nNEXT Next\nINVARIANT VarRange\nINVARIANT CovSymmetric\nINVARIANT Shortcut\nINVARIANT OrderIndep\n"
-                                       "CHECK_DEADLOCK FALSE\n", timeout=2400)
+    r = run_tlc("MC_GpExact", cfg_text="INIT Init\nNEXT Next\nCONSTANT Focus = \"%s\"\nINVARIANT VarRange\nINVARIANT CovSymmetric\nINVARIANT Shortcut\nINVARIANT OrderIndep\n"
+                                       "CHECK_DEADLOCK FALSE\n" % focus, timeout=2400)
     if r.violated:
         ck.violation("spec: GpExact " + ",".join(r.violated), {"violated": r.violated}, site="spec")
     must_pass(r, "MC_GpExact")
